@@ -254,6 +254,15 @@ theorem resolve_refines_spec_partial (p : Params) {o : Orders} (ho : o.Valid) (s
     ResEq (resolve p o store sets chains) (resolveV2F4 p store sets chains) :=
   resolve_refines_dev p ho store wf
 
+/-- **resolve_no_panic.** Under `SpecWF`, whatever the iteration orders: if `resolve` fails, it fails
+with a Rust `Err(_)` — the `unwrap` in `add_event_and_auth_chain_to_graph`, the two `expect`s of
+the topological sort and the `unwrap` of the mainline sort are unreachable, and no `while let` loop
+exceeds the bound the model gives it (the real loops terminate). -/
+theorem resolve_no_panic (p : Params) {o : Orders} (ho : o.Valid) (store : List Event)
+    {sets : List StateMap} {chains : List (List Id)} {c0 : Event} (wf : SpecWF p store sets chains c0)
+    (e : Fail) (h : resolve p o store sets chains = .error e) : e = .err :=
+  resolve_error_is_err p ho store wf e h
+
 /-- **resolve_refines_spec_real.** The same for the repository's own authorization functions, with no
 hypothesis left about them: for every consistent rule set `r` (every room version), every room
 satisfying `RoomOk` and all iteration orders, `resolve` is the F4-deviation-carrying specification,
@@ -334,6 +343,7 @@ end Ruma.Props.C07
 #print axioms Ruma.Props.C07.mainlineSortSpecStatement_refuted
 #print axioms Ruma.Props.C07.resolve_keeps_unconflicted
 #print axioms Ruma.Props.C07.resolve_refines_spec_partial
+#print axioms Ruma.Props.C07.resolve_no_panic
 #print axioms Ruma.Props.C07.resolve_refines_spec_real
 #print axioms Ruma.Props.C07.resolve_refines_spec_noF4
 #print axioms Ruma.Props.C07.f4_deviation_observable
